@@ -797,7 +797,7 @@ def fixed_shard(arg):
 
 CSS_ALPHA = ['\\', '5', 'c', '/', '*', ';', ':', '(', ')', 'u', ' ', '\n', 'a']
 ENT_ALPHA = ['&', '#', 'x', 'X', '1', 'a', ';', 'm', 'p', '\u0663', 'g']
-URI_ALPHA = ['#', ':', 'a', 'A', '/', ' ', '\t', '\u212a', '1', '&', '"']   # no + - . (finding C06-scheme-punct)
+URI_ALPHA = ['#', ':', 'a', 'A', '-', ' ', '\n', '\u212a', '.', '&', '"']
 
 
 def exhaustive_shard(arg):
@@ -860,5 +860,36 @@ def search(ctx, res, broken):
     return found
 
 
+_PREFIX = re.compile(r'[A-Za-z_][A-Za-z0-9_.\-]*\Z')
+
+
+def in_domain(case):
+    """the hypotheses of the generators (ASSUMPTIONS): shrinking must not leave them, or a shrunk
+    input would 'fail' on the clean tree too"""
+    try:
+        if case.get('kind') not in ('html', 'raw', 'css', 'uri', 'ent'):
+            return False
+        if case['kind'] != 'raw':
+            return isinstance(case.get('text'), str)
+        depth = 0
+        for e in case['events']:
+            k = e[0]
+            if k == 'T' and e[2]:
+                return False            # Markup TEXT is trusted by construction
+            if k == 'SC':
+                depth += 1
+            elif k == 'EC':
+                depth = max(0, depth - 1)   # a stray END_CDATA is harmless
+            elif depth and k != 'T':
+                return False            # a CDATA section holds text only
+            if k == 'NS' and e[1] and not _PREFIX.match(e[1]):
+                return False            # namespace prefixes are XML names
+        return depth == 0
+    except Exception:
+        return False
+
+
 def replay(ctx, case):
+    if not in_domain(case):
+        return None
     return oracle_case(case)
